@@ -31,6 +31,10 @@ def run(ctx):
         "expression attributes of the drivers are character-set / alternative expressions evaluated by TLC itself; one free-form expression is "
         "opaque (verdict of booster::regex logged); URI syntax beyond the scheme is not part of the judgement",
         "encodings driven: none, UTF-8, ISO-8859-1, windows-1252 (the non-ASCII-compatible path through iconv is not driven)",
+        "expression attributes are also driven into the regex engine's error results: expressions with nested quantifiers "
+        "(([a-zA-Z0-9_-]+ ?)*, ([a-z]+)*, (a|aa)+, (x+x+)+y, (\\w+\\d*)+, scheme (h+)+ttps?) with values of 48 / 200 / 2000 allowed characters plus one "
+        "forbidden character, and expressions compiled with regex::utf8 with values carrying invalid UTF-8, under encodings none / UTF-8 / "
+        "ISO-8859-1 / windows-1252; TLC evaluates the declared character set / alternatives / scheme list (a superset of each language)",
         "entity sweep: every '&' w ';' with w = '#' v, |v| <= 4 (quick) / 5 (thorough), and w without '#', over & # x X 0 1 9 a f A F g ; + - "
         "SP TAB . _ and 0xE9, in text position and inside an attribute value, numeric entities on / off, XHTML / HTML; the entity grammar "
         "is EntityEnd / NumericRefOK of XssTok.tla (white-listed name | '&#' DIGIT+ ';' | '&#x' HEXDIGIT+ ';', code point not a control)",
@@ -90,6 +94,8 @@ def run(ctx):
         job("enth", ["ent", 4, 0, 0, 1, erid(3, 3, 0, js=1)], 2)
         job("ento", ["ent", 3, 0, 0, 1, erid(3, 3, 1, nu=0), erid(3, 3, 0, nu=0)], 1)
         job("enta", ["ent", 3, 1, 0, 1, erid(3, 3, 1), erid(3, 3, 0)], 1)
+        # expression engine error outcomes (match limit / bad UTF-8): values one forbidden character away from the language
+        job("eng", ["eng", 0, 0, 0, 1, 2000, 2003, 2005, 2006], 2)
         job("enc", ["enc", 13, 0, 0, 1], 2)
         job("rnd", ["rnd", 900, 200, 0, 1] + fam, 3)
     else:
@@ -107,6 +113,7 @@ def run(ctx):
         job("enth", ["ent", 4, 0, 0, 1, erid(3, 3, 0, js=1), erid(3, 3, 0)], 2)
         job("ento", ["ent", 4, 0, 0, 1, erid(3, 3, 1, nu=0), erid(3, 3, 0, nu=0)], 2)
         job("enta", ["ent", 4, 1, 0, 1, erid(3, 3, 1), erid(3, 3, 0)], 2)
+        job("eng", ["eng", 1, 0, 0, 1, 2000, 2001, 2002, 2003, 2004, 2005, 2006, 2007], 4)
         job("enc", ["enc", 1, 1, 0, 1], 6)
         job("rnd", ["rnd", 3000, 400, 0, 1] + fam, 12)
         job("rndL", ["rnd", 60, 1500, 0, 1] + fam[:12], 2)
@@ -127,7 +134,7 @@ def run(ctx):
         for x in rej:
             report(ctx, shard, x)
     # drift: the mechanism model's own prediction (never a violation)
-    dtr = [t for t in traces if any(k in os.path.basename(t) for k in (("tok", "rnd", "lf", "ctl", "enc", "ento", "enta", "entx-0") if q else ("tok", "rnd", "attr", "lf", "ctl", "enc", "enth", "ento", "enta")))]
+    dtr = [t for t in traces if any(k in os.path.basename(t) for k in (("tok", "rnd", "lf", "ctl", "enc", "ento", "enta", "entx-0", "eng") if q else ("tok", "rnd", "attr", "lf", "ctl", "enc", "enth", "ento", "enta", "eng")))]
     dres = shard.parallel_print_pass(ctx, "Xss/XssTokTrace.tla", "XssTokDrift.cfg", dtr, "DRIFT", threads=NT)
     nd = 0
     for t, rows in dres.items():
@@ -178,7 +185,8 @@ def report(ctx, shard, x):
             if code:
                 why.append("dangerous-%s:%s" % (name, REASON.get(code // 100000, "?")))
         for name, v in zip(("out-invalid-remove", "out-invalid-escape", "out-unstable-remove", "out-unstable-escape",
-                            "validate-vs-filter-mismatch", "valid-input-changed", "valid-input-ill-formed", "out-ill-formed"), f[2:]):
+                            "validate-vs-filter-mismatch", "valid-input-changed", "valid-input-ill-formed", "out-ill-formed",
+                            "value-outside-expression-accepted"), f[2:]):
             if not v:
                 why.append(name)
         sig = ("E:" if sweep else "F:") + "+".join(sorted(set(w.replace("-remove", "").replace("-escape", "") for w in why)))
